@@ -115,7 +115,7 @@ Proof.
 Qed.
 
 Lemma so_join_spec o k' s :
-  I s -> fault s = None ->
+  I s ->
   match so_join cfg o k' s with
   | (Ret objs, s') =>
       Inv cfg m objs s' /\ ext s s' /\ tables s' = tables s /\
@@ -123,8 +123,9 @@ Lemma so_join_spec o k' s :
   | (Raise _, s') => I s' /\ ext s s' /\ tables s' = tables s
   end.
 Proof.
-  intros H Hf. unfold so_join. unfold bind at 1, gets. cbn [fst snd].
-  unfold bind at 1. rewrite (statement_ok _ s Hf).
+  intros H. unfold so_join. unfold bind at 1, gets. cbn [fst snd].
+  unfold bind at 1. destruct (statement_run (SSelect k') s) as (l0 & [Es|Es]); rewrite Es.
+  2:{ split; [apply Inv_log; exact H|]. split; [apply ext_core; reflexivity|reflexivity]. }
   set (s0 := with_log s _).
   assert (H0 : I s0) by (apply Inv_log; exact H).
   assert (E0 : ext s s0) by (apply ext_core; reflexivity).
@@ -144,9 +145,9 @@ Proof.
   unfold handle, bind, gets. cbn [fst snd]. destruct (nth h (slots s) None) as [o|]; [left; exists o; auto|right; reflexivity].
 Qed.
 
-Lemma run_path_spec p s : I s -> fault s = None -> match run_path cfg p s with (_, s') => I s' end.
+Lemma run_path_spec p s : I s -> match run_path cfg p s with (_, s') => I s' end.
 Proof.
-  intros H Hf. destruct p as [h k'|h k' keep]; cbn [run_path].
+  intros H. destruct p as [h k'|h k' keep]; cbn [run_path].
   - unfold hold_opt. unfold bind at 1.
     destruct (handle_run h s) as [(o & Eh & Hn)|Eh]; rewrite Eh; [|now apply Inv_slot_none].
     pose proof (so_fk_spec o k' s H (nth_some_In _ _ _ Hn)) as F.
@@ -157,7 +158,7 @@ Proof.
   - unfold or_empty_slot. unfold bind at 1.
     destruct (handle_run h s) as [(o & Eh & Hn)|Eh]; rewrite Eh; [|destruct keep; [now apply Inv_slot_none|exact H]].
     unfold bind at 1.
-    pose proof (so_join_spec o k' s H Hf) as J.
+    pose proof (so_join_spec o k' s H) as J.
     destruct (so_join cfg o k' s) as [[objs|e] s1].
     2:{ destruct J as (J1 & _). destruct keep; [now apply Inv_slot_none|exact J1]. }
     destruct J as (S1 & _).
@@ -177,7 +178,7 @@ Theorem pstep_Inv s o : I s -> pgop m o = true -> I (snd (pstep cfg s o)).
 Proof.
   intros H Hg. destruct o as [o|p|n p]; [exact (step_Inv cfg m s o H Hg)| |discriminate].
   unfold pstep. cbn [prun_op].
-  pose proof (run_path_spec p (st0 s) (Inv_st0 cfg m s H) eq_refl) as R.
+  pose proof (run_path_spec p (st0 s) (Inv_st0 cfg m s H)) as R.
   fold (st0 s). destruct (run_path cfg p (st0 s)) as [x s']. exact R.
 Qed.
 
